@@ -315,6 +315,9 @@ pub static OCANON_K1: [u64; 2] = oracle_canonical_list::<1, 4, 2>();
 pub static OCANON_K2: [u64; 10] = oracle_canonical_list::<2, 16, 10>();
 pub static OCANON_K3: [u64; 32] = oracle_canonical_list::<3, 64, 32>();
 pub static OCANON_K4: [u64; 136] = oracle_canonical_list::<4, 256, 136>();
+pub static OCANON_K5: [u64; 512] = oracle_canonical_list::<5, 1024, 512>();
+pub static OCANON_K6: [u64; 2080] = oracle_canonical_list::<6, 4096, 2080>();
+pub static OCANON_K7: [u64; 8192] = oracle_canonical_list::<7, 16384, 8192>();
 
 pub fn expected_count(k: usize) -> usize {
     let p = pow4(k) as usize;
